@@ -25,6 +25,16 @@ func init() {
 }
 
 func runC11(w *World, r *Report) {
+	// ---- the marks that keep a pre-handler from running twice survive the byte store
+	r.Rule("C11.skip-marks-survive", "every field of the checkpoint struct is exported (the serializer keeps exported fields only): the skip-pre-handler marks are not lost between interrupt and resume", 4)
+	{
+		st := w.Named("compose", "checkpoint").Underlying().(*types.Struct)
+		for i := 0; i < st.NumFields(); i++ {
+			f := st.Field(i)
+			r.Check(f.Exported(), "C11.skip-marks-survive", "checkpoint."+f.Name()+" is exported", f.Pos(), "kept by the byte store", "an unexported checkpoint field is silently dropped on the store round trip: with the skip-pre-handler marks gone, the state pre-handler of a graph node whose nested graph interrupted runs a second time on the zero placeholder input — the resume itself mutates the state")
+		}
+	}
+
 	getState := w.Fn("compose", "getState")
 	fState := w.Field("compose", "internalState", "state")
 
